@@ -23,6 +23,8 @@ package tglib
 //@ ensures nea2: vc.Imp(ue != nil && msg != nil && securityContextAvailable && perr0 == nil && ue.CipheringAlg == 2 && vcCiphered(msg.SecurityHeader.SecurityHeaderType), vc.Forall(0, len(plain0), func(j int) bool { return payload[7+j] == plain0[j]^nasalg.EEA2KeystreamByte(ue.KnasEnc, c0, 1, 0, j) }))
 //@ ensures mac1: vc.Imp(ue != nil && msg != nil && securityContextAvailable && perr0 == nil && ue.IntegrityAlg == 1, [4]byte{payload[2], payload[3], payload[4], payload[5]} == nasalg.EIA1(ue.KnasInt, c0, 1, 0, payload[6:]))
 //@ ensures mac2: vc.Imp(ue != nil && msg != nil && securityContextAvailable && perr0 == nil && ue.IntegrityAlg == 2, [4]byte{payload[2], payload[3], payload[4], payload[5]} == nasalg.EIA2(ue.KnasInt, c0, 1, 0, payload[6:]))
+// a submission that is refused consumes no COUNT value: the next message sent is still one above the last one sent
+//@ ensures errcount: vc.Imp(ue != nil && msg != nil && securityContextAvailable && err != nil, ue.ULCount.Get() == c0)
 //@ ensures ulcount: vc.Imp(ue != nil && msg != nil && securityContextAvailable && perr0 == nil, ue.ULCount.Get() == (c0+1)&0xffffff)
 //@ ensures dlcount: vc.Imp(ue != nil && msg != nil && securityContextAvailable && perr0 == nil, ue.DLCount.Get() == vcDL0(old(ue.DLCount.Get()), newSecurityContext))
 //@ assigns &ue.ULCount, &ue.DLCount
